@@ -368,7 +368,7 @@ def main():
     os.makedirs(os.path.join(VERIF, "replays", prop), exist_ok=True)
     for run in runs:
         rep = {"id": run.id, "kind": run.kind, "bound": run.s.get("bound"), "functions_under_contract": run.s.get("functions", []),
-               "back_end": "cbmc 6.11 SAT (%s)" % ("cadical" if run.s.get("dfcc") is not None else "minisat"),
+               "back_end": "cbmc 6.11 SAT (%s)%s" % ("cadical" if (run.s.get("dfcc") is not None or "cadical" in run.s.get("cbmc", [])) else "minisat", ", goto-instrument --dfcc contract instrumentation" if run.s.get("dfcc") is not None else ""),
                "solver_s": round(run.solver_s, 2), "wall_s": round(run.wall_s, 2), "what": run.s.get("what", ""), "notes": run.notes}
         functions.update(run.s.get("functions", []))
         if run.error:
